@@ -39,9 +39,26 @@ def check(ctx, run):
             run.undecided('R13.1', fn, 'key-type', 'no ordered set / map local was found in this function (the lookup structure lives in a helper or a struct?): the element key is not decided', f'{b.file}:{b.line}')
             continue
         ok = len(ks) == 1 and '(jentry::JEntry, &[u8])' in next(iter(ks))
+        if not ok and len(ks) == 1:
+            # a private struct as key: it must carry both the entry word and the payload
+            import re as _re
+            m_ = _re.search(r'BTree(?:Set|Map)<([\w:]+)(?:<[^>]*>)?[,>]', next(iter(ks)))
+            adt_ = f.adts.get(m_.group(1)) if m_ else None
+            if adt_ and adt_.get('variants') and len(adt_['variants']) == 1:
+                ftys = [str(fl.get('ty', {}).get('s', fl.get('ty'))) for fl in adt_['variants'][0].get('fields', [])]
+                if any('JEntry' in t_ for t_ in ftys) and any('[u8]' in t_ for t_ in ftys):
+                    run.proved('R13.1', fn, 'key-type', f'{next(iter(ks))}: a struct carrying the entry word and the payload', f'{b.file}:{b.line}')
+                    continue
+                if ftys:
+                    run.violation('R13.1', fn, 'key-type', f'the element key is {sorted(ks)} with fields {ftys}: two elements are "the same" only if both the entry word and the raw payload agree', f'{b.file}:{b.line}')
+                    continue
+            if m_ and not any(x in next(iter(ks)) for x in ('JEntry', '[u8]')):
+                run.undecided('R13.1', fn, 'key-type', f'the element key is {sorted(ks)}, a type this rule cannot look into: not decided', f'{b.file}:{b.line}')
+                continue
         (run.proved if ok else run.violation)('R13.1', fn, 'key-type', f'{next(iter(ks))}' if ok else f'the element key is {sorted(ks)}: two elements are "the same" only if both the entry word and the raw payload agree', f'{b.file}:{b.line}')
     # ---- R13.2
     tables = {}
+    helper_push = {}
     for fn in ('functions::array_intersection_jsonb', 'functions::array_except_jsonb'):
         b = f.bodies.get(fn)
         if b is None:
@@ -58,6 +75,15 @@ def check(ctx, run):
             cnt = [c for c in q.conds if c[0][0] == 'bin' and c[0][1] == 'Gt' and const_of(c[0][3]) == 0]
             pos = cnt[0][2] if cnt else None
             pushed = any(called(e[1], 'ArrayBuilder::push_raw') for e in q.calls())
+            # a push made through a crate-local helper that receives the builder (`elem.push_to(&mut builder)`)
+            for e in q.calls():
+                c_ = e[5].get('callee', {}) if isinstance(e[5], dict) else {}
+                if c_.get('resolved_local') and not called(e[1], 'ArrayBuilder::push_raw', 'ArrayBuilder::new', 'ArrayBuilder::build_into') and \
+                        any(a.get('k') in ('copy', 'move') and 'ArrayBuilder' in str(b.local_ty(a['place']['local']).get('s', '')) for a in e[5].get('args', [])):
+                    hb_ = f.bodies.get(c_.get('resolved'))
+                    if hb_ is not None and any(called(callee_name(t_), 'ArrayBuilder::push_raw') for _, t_ in hb_.calls()):
+                        helper_push[fn] = canon(e[1]).split('::')[-1]
+                        pushed = True
             dec = any(e[0] == 'store' and show(e[2]).startswith('Sub(') for e in q.events) or any('Sub' in show(v) and 'get_mut' in show(v) for k, v in q.store.items() if k[0] != 'L')
             tab[(found, pos)] = (pushed, dec)
         tables[fn] = tab
